@@ -34,6 +34,9 @@ def is_symbolic(v):
     return False
 
 
+INT_TYS = ("u8", "u16", "u32", "u64", "u128", "usize", "i8", "i16", "i32", "i64", "i128", "isize")
+
+
 class Interp:
     def __init__(self, facts, max_steps=20000):
         self.facts = facts
@@ -201,11 +204,15 @@ class Interp:
                     if 0 <= args[0] < (1 << int(m_.group(1))):
                         return ("v", "core::result::Result::Ok", (args[0],))
                     return ("v", "core::result::Result::Err", (("sym", "TryFromIntError"),))
+            if (fp.endswith("convert::From::from") or fp.endswith("convert::Into::into")) and len(args) == 1 and isinstance(args[0], int) and str(e.get("ty", "")) in INT_TYS:
+                return int(args[0])         # std only has From between integer types where it is lossless (bool -> 0 / 1)
             if fp in self.facts.hir:
                 return self.call_fn(fp, args)
             return self.ext_call(fp, args)
         if k == "mcall":
             recv = self.ev(e["recv"], env)
+            if e.get("name") == "into" and not e.get("callee_local") and isinstance(recv, int) and str(e.get("ty", "")) in INT_TYS:
+                return int(recv)
             callee = e.get("callee", "")
             args = []
             for a in e["args"]:
